@@ -27,7 +27,7 @@ def parseTreeRecs : Nat → List String → Option (List TreeRec × List String)
       | none => none
     | none => none
 
-/-- events of a history: `A <tree record>` | `F <split>` | `S <split>` | `G` -/
+/-- events of a history: `A <tree record>` | `X <tree record>` (refused offer) | `F <split>` | `S <split>` | `G` -/
 def parseEvs : Nat → List String → Option (List Ev)
   | 0, ws => if ws.isEmpty then some [] else none
   | n + 1, ws =>
@@ -43,6 +43,10 @@ def parseEvs : Nat → List String → Option (List Ev)
       | some s => (parseEvs n rest).map (fun es => Ev.summ s :: es)
       | none => none
     | "G" :: rest => (parseEvs n rest).map (fun es => Ev.ages :: es)
+    | "X" :: rest =>
+      match parseTreeRec rest with
+      | some (t, rest') => (parseEvs n rest').map (fun es => Ev.refused t :: es)
+      | none => none
     | _ => none
 
 def renderStats (st : Stats) : String :=
